@@ -2,6 +2,7 @@ package main
 
 import (
 	"bytes"
+	"encoding/hex"
 	"fmt"
 	"math/rand"
 	"os"
@@ -326,6 +327,35 @@ func checkC04(c *Ctx) (int, error) {
 				for ri, rd := range readSchedules {
 
 					add(RSource{Kind: "bufio", BufSize: bs, Chunks: chunkSchedules[(bi*3+ri)%len(chunkSchedules)], FailAt: -1, Released: -1, EOFData: ri%2 == 1}, rd)
+				}
+			}
+		}
+	}
+	// truncation sweeps of streams whose FINAL block is a large Huffman block (only fastgo's own
+	// writers produce them): the delivery must not change how much is decoded before the cut
+	nSweep := 3
+	if c.Tier == "thorough" {
+		nSweep = 12
+	}
+	for wi := 0; wi < nSweep; wi++ {
+		lvl := []int{-2, 1, 2}[wi%3]
+		ds := DataSpec{Class: []string{"alpha3", "text", "digits", "alpha4"}[wi%4], Seed: rng.Int63n(1 << 30), Len: 20000 + rng.Intn(30000)}
+		base := encStream("fastgo", "flate", lvl, ds, nil)
+		bb, err := base.Build()
+		if err != nil {
+			return 0, err
+		}
+		base = RStream{Hex: hex.EncodeToString(bb)} // the same bytes in every worker
+		for cut := 2100 + rng.Intn(300); cut < len(bb); cut += 397 + rng.Intn(200) {
+			st := base
+			st.Mut = []Mutation{{Op: "trunc", Pos: cut}}
+			for _, arch := range c.Levels {
+				group := fmt.Sprintf("C04-sweep%d-%d-a%d", wi, cut, arch)
+				for si, ch := range [][]int{{0}, {1}, {7}, {4096, 1}} {
+					cs := &RCase{ID: fmt.Sprintf("C04-%d", id), Kind: "flate", Arch: arch, Group: group, GClause: "C04.same_outcome", Tag: fmt.Sprintf("fastgo%d-%s-cut%d", lvl, ds.Class, cut),
+						Segs: []RSeg{{Stream: st, Src: RSource{Kind: []string{"plain", "plain", "bufio", "bufio"}[si], BufSize: 64, Chunks: ch, FailAt: -1, Released: -1}, Reads: [][]int{{1 << 20}, {4096}, {1}, {70000}}[si], Multi: true}}}
+					id++
+					cases = append(cases, cs)
 				}
 			}
 		}
